@@ -575,7 +575,15 @@ Proof.
   split; [constructor; [split; [apply perm_swap|discriminate]|constructor]|]. vm_compute. reflexivity.
 Qed.
 
+(* [F] cells_ -- the cells the pass unplaces / re-places, sorted with std::greater -- is a permutation of the window: every
+   window cell is registered in exactly one region *)
+Theorem c05_reordering_registers_window : forall d cs rgs,
+  NoDup (map p_id (cells_of d)) -> NoDup cs -> regions_of d cs cs = Some rgs ->
+  Permutation cs (rev (sort_asc (map p_id (registered rgs)))).
+Proof. exact cells_perm_window. Qed.
+
 Print Assumptions c05_reordering_leaf_shape.
+Print Assumptions c05_reordering_registers_window.
 Print Assumptions c05_reordering_enumeration_complete.
 Print Assumptions c05_closed_reordering_is_paired_step.
 Print Assumptions c05_closed_reordering_never_worsens.
